@@ -4,8 +4,9 @@ Specification for C22: what a firewall rule in the configuration *says*.
   port text   : `any` | `fragment` | a decimal numeral 0…65535 (`0` = any) | `a-b` (two such numerals, blanks
                 allowed around each) — nothing else. The numeral's value is its ordinary (unbounded) decimal value,
                 then compared with 65535: no truncation, no sign, no other base, ASCII digits only.
-  which ports : `any` and `0` describe every port, `fragment` describes non-first fragments (−1), `n` describes
-                port n, `a-b` describes the ports a…b.
+  which ports : `any` and `0` describe every port (0 is the documented wildcard: "Takes `0` or `any` as any"),
+                `fragment` describes non-first fragments (−1), `n` describes port n, `a-b` describes the ports
+                a…b — and therefore every port when the range contains the wildcard 0 (reading of F21).
   a rule loads: known protocol ∧ (icmp ∨ valid port text with a ≤ b) ∧ not both `port` and `code` ∧ at least one of
                 host, group(s), cidr, local_cidr, ca_name, ca_sha ∧ cidr / local_cidr are "", `any` or parse.
 Core Lean only.
@@ -56,7 +57,7 @@ def PortText.admits : PortText → Int → Bool
   | .any, _ => true
   | .fragment, x => x = -1
   | .single n, x => n = 0 ∨ x = n
-  | .range a b, x => a ≤ x ∧ x ≤ b
+  | .range a b, x => a = 0 ∨ (a ≤ x ∧ x ≤ b)
 
 /-- the port numbers a loaded rule with `[start, end]` admits (C16's `portOK` for a non-ICMP packet). -/
 def rangeAdmits (startPort endPort x : Int) : Bool :=
